@@ -478,8 +478,8 @@ def r15_6(run):
                "%s.from_dict rebuilds the object only from stored entries (no setdefault / constant fallback)" % ci.name,
                run.where(fd, invented[0].node if invented else fd.node),
                detail="; ".join(tshow(c.term)[:100] for c in invented))
-    run.ob("custom-pairs-found", n >= 2, "classes with their own to_dict/from_dict pair: %d" % n, "src/pandapipes")
-    run.floor(4)
+    run.ob("custom-pairs-found", n >= 1, "classes with their own to_dict/from_dict pair: %d" % n, "src/pandapipes")
+    run.floor(3)
 
 
 RULES = [("R15.6", r15_6), ("R15.1", r15_1), ("R15.2", r15_2), ("R15.3", r15_3), ("R15.4", r15_4), ("R15.5", r15_5)]
